@@ -453,6 +453,7 @@ class Check:
                 json.dump(dict(property=self.id, kind="input", seed=self.seed, clause=v["clause"],
                                case=v["case"], expected=v["expected"], observed=v["observed"],
                                broken=self.broken, all_violations=len(self.violations),
+                               more=[dict(clause=x['clause'], case=x['case'], observed=x['observed']) for x in self.violations[1:12]],
                                how_to_rerun=v.get("how_to_rerun") or "./check %s --replay %s" % (self.id, path)),
                           f, indent=1, default=str)
             lines.append("VIOLATION property=%s replay=%s" % (self.id, path))
